@@ -94,6 +94,7 @@ void trl(Ctx &c, bool near) {
         c.label("solve:failed"); return;
     }
     c.label("solve:ok");
+    PBT_CHECK(c, run.log.n_nonwarning() == 0, "C02.success_with_error_callback", "solve returned 0 but reported: %s", run.log.text().c_str());
     if (near && !det) { c.label("near-TRL:not-determining"); return; }
     c.nontrivial();
     check_solution(c, sc, run, 0, kappa, near ? "near-TRL" : "TRL");
@@ -156,6 +157,7 @@ void lm(Ctx &c) {
         c.label(itlimit <= 3 ? "solve:failed(limit<=3)" : "solve:failed"); return;
     }
     c.label("solve:ok");
+    PBT_CHECK(c, run.log.n_nonwarning() == 0, "C02.success_with_error_callback", "solve returned 0 but reported: %s", run.log.text().c_str());
     if (single_with_unknown || sc.uparams.size() >= 2 || correlated || itlimit <= 3) c.nontrivial();
     // with error weighting the exact data are still exact: same bound
     check_solution(c, sc, run, std::max(ptol, ettol), kappa, "LM");
